@@ -10,6 +10,7 @@ Section rview_ind'.
   Hypothesis Ht : forall l e, P (RText l e).
   Hypothesis He : forall ps ks, Forall P ks -> P (RElem ps ks).
   Hypothesis Hi : forall l m c a b, P a -> P b -> P (RIf l m c a b).
+  Hypothesis Ha : forall l es ea, P (RAsync l es ea).
   Fixpoint rview_ind' (r : rview) : P r :=
     match r with
     | RStatic n => Hs n
@@ -18,6 +19,7 @@ Section rview_ind'.
         He ps ks ((fix all (l : list rview) : Forall P l :=
                      match l with [] => Forall_nil P | x :: r => Forall_cons x (rview_ind' x) (all r) end) ks)
     | RIf l m c a b => Hi l m c a b (rview_ind' a) (rview_ind' b)
+    | RAsync l es ea => Ha l es ea
     end.
 End rview_ind'.
 
@@ -27,6 +29,7 @@ Section inst_ind'.
   Hypothesis Ht : forall f e id m x, P (IText f e id m x).
   Hypothesis He : forall id m ps ks, Forall P ks -> P (IElem id m ps ks).
   Hypothesis Hi : forall f memo c a b br ch, P ch -> P (IIf f memo c a b br ch).
+  Hypothesis Ha : forall f es ea id m sh pe sub, P (IAsync f es ea id m sh pe sub).
   Fixpoint inst_ind' (i : inst) : P i :=
     match i with
     | IStatic id m n => Hs id m n
@@ -35,6 +38,7 @@ Section inst_ind'.
         He id m ps ks ((fix all (l : list inst) : Forall P l :=
                           match l with [] => Forall_nil P | x :: r => Forall_cons x (inst_ind' x) (all r) end) ks)
     | IIf f memo c a b br ch => Hi f memo c a b br ch (inst_ind' ch)
+    | IAsync f es ea id m sh pe sub => Ha f es ea id m sh pe sub
     end.
 End inst_ind'.
 
@@ -55,6 +59,13 @@ Fixpoint inv (s : list N) (P : nat -> Prop) (i : inst) {struct i} : Prop :=
       (fix go (l : list inst) : Prop := match l with [] => True | k :: l => inv s P k /\ go l end) ks
   | IIf f memo c a b br ch =>
       ef_ok P f (br = nz (eval s c)) /\ view_of ch = (if br then a else b) /\ inv s P ch
+  | IAsync f es ea _ _ sh pe sub =>
+      (* not notified: a waiting leaf captured the current value of [es]; a settled one shows the
+         current value and is subscribed to what its future read *)
+      ef_ok P f (match pe with
+                 | Some (_, a) => a = eval s es
+                 | None => sh = Some (eval s es + eval s ea)%N /\ sub = true
+                 end)
   end.
 Fixpoint inv_list (s : list N) (P : nat -> Prop) (l : list inst) : Prop :=
   match l with [] => True | k :: l => inv s P k /\ inv_list s P l end.
@@ -76,7 +87,7 @@ Proof. intros H [A B]. split; auto. Qed.
 
 Lemma inv_mono s (P Q : nat -> Prop) i : (forall x, P x -> Q x) -> inv s P i -> inv s Q i.
 Proof.
-  intro H. induction i as [id m n|f e id m x|id m ps ks IH|f memo c a b br ch IH] using inst_ind'; intro Hi.
+  intro H. induction i as [id m n|f e id m x|id m ps ks IH|f memo c a b br ch IH|af aes aea aid am ash ape asub] using inst_ind'; intro Hi.
   - exact I.
   - cbn [inv] in *. eapply ef_ok_mono; eauto.
   - rewrite inv_elem in *. destruct Hi as [Hp Hk]. split.
@@ -84,6 +95,7 @@ Proof.
     + clear Hp. induction IH as [|k ks Hk1 _ IHks]; [exact I|].
       cbn [inv_list] in *. destruct Hk as [A B]. split; auto.
   - cbn [inv] in *. destruct Hi as (A & B & C). split; [eapply ef_ok_mono; eauto|]. split; auto.
+  - cbn [inv] in *. eapply ef_ok_mono; eauto.
 Qed.
 
 Definition none (_ : nat) : Prop := False.
@@ -153,7 +165,7 @@ Proof.
   - cbn [build_props build_prop]. cbn [spawn].
     set (v1 := logged l v).
     set (v2 := {| sigs := sigs v1; neid := S (neid v1); nid := nid v1;
-                  ready := insert_sorted (neid v1) (ready v1); log := log v1 |}).
+                  ready := insert_sorted (neid v1) (ready v1); log := log v1; nfut := nfut v1; opened := opened v1 |}).
     specialize (IH v2). destruct (build_props ps v2) as [[pis m2] v3].
     destruct IH as (A & B & C).
     assert (L : le_env v v2).
@@ -187,12 +199,12 @@ Qed.
 
 Lemma build_ok r : build_spec r.
 Proof.
-  induction r as [n|l e|ps ks IH|l m c a b IHa IHb] using rview_ind'; intro v.
+  induction r as [n|l e|ps ks IH|l m c a b IHa IHb|al aes aea] using rview_ind'; intro v.
   - cbn. repeat split; auto.
   - cbn [build new_node spawn]. repeat split; auto; try discriminate.
     intros x Hx. cbn. apply insert_sorted_in. now right.
   - rewrite build_elem. cbn [new_node].
-    set (v1 := {| sigs := sigs v; neid := neid v; nid := S (nid v); ready := ready v; log := log v |}).
+    set (v1 := {| sigs := sigs v; neid := neid v; nid := S (nid v); ready := ready v; log := log v; nfut := nfut v; opened := opened v |}).
     pose proof (build_props_ok ps v1) as Hp. destruct (build_props ps v1) as [[pis m] v2].
     destruct Hp as (A & B & C).
     pose proof (build_list_ok ks IH v2) as Hk. destruct (build_list ks v2) as [kis v3].
@@ -212,6 +224,10 @@ Proof.
     + cbn [inv]. split; [split; [reflexivity|discriminate]|]. split; [exact B|exact A].
     + destruct C as [C1 _]. cbn. exact C1.
     + intros x Hx. cbn. apply insert_sorted_in. right. apply C. exact Hx.
+  - cbn [build new_future new_node spawn logged sigs]. split; [|split; [reflexivity|split]].
+    + cbn [inv]. split; [intros _; reflexivity|discriminate].
+    + reflexivity.
+    + intros x Hx. cbn. apply insert_sorted_in. now right.
 Qed.
 
 (** * rebuild produces a current instance of the same view *)
@@ -232,7 +248,7 @@ Proof.
   - cbn [rebuild_props rebuild_prop]. cbn [spawn].
     set (v1 := logged (lbl f) v).
     set (v2 := wake (eid f) {| sigs := sigs v1; neid := S (neid v1); nid := nid v1;
-                               ready := insert_sorted (neid v1) (ready v1); log := log v1 |}).
+                               ready := insert_sorted (neid v1) (ready v1); log := log v1; nfut := nfut v1; opened := opened v1 |}).
     specialize (IH v2). destruct (rebuild_props ps v2) as [[pis m2] v3].
     destruct IH as (A & B & C).
     assert (L : le_env v v2).
@@ -267,7 +283,7 @@ Qed.
 
 Lemma rebuild_ok i : rebuild_spec i.
 Proof.
-  induction i as [id m n|f e id m x|id m ps ks IH|f memo c a b br ch IH] using inst_ind'; intro v.
+  induction i as [id m n|f e id m x|id m ps ks IH|f memo c a b br ch IH|af aes aea aid am ash ape asub] using inst_ind'; intro v.
   - cbn. repeat split; auto.
   - cbn [rebuild]. pose proof (build_ok (RText (lbl f) e) v) as H.
     destruct (build (RText (lbl f) e) v) as [i' v1]. destruct H as (A & B & C). repeat split.
@@ -292,6 +308,12 @@ Proof.
     + exact B.
     + destruct C as [C1 _]. rewrite <- C1. apply (le_dispose (IIf f memo c a b br ch) v1).
     + intros y Hy. apply (le_dispose (IIf f memo c a b br ch) v1), C, Hy.
+  - cbn [rebuild]. pose proof (build_ok (RAsync (lbl af) aes aea) v) as H.
+    destruct (build (RAsync (lbl af) aes aea) v) as [i' v1]. destruct H as (A & B & C). repeat split.
+    + exact A.
+    + exact B.
+    + destruct C as [C1 _]. rewrite <- C1. apply (le_dispose (IAsync af aes aea aid am ash ape asub) v1).
+    + intros y Hy. apply (le_dispose (IAsync af aes aea aid am ash ape asub) v1), C, Hy.
 Qed.
 
 (** * A signal write notifies exactly the effects that read it *)
@@ -328,13 +350,14 @@ Qed.
 
 Lemma view_of_notify j i : view_of (notify j i) = view_of i.
 Proof.
-  induction i as [id m n|f e id m x|id m ps ks IH|f memo c a b br ch IH] using inst_ind'.
+  induction i as [id m n|f e id m x|id m ps ks IH|f memo c a b br ch IH|af aes aea aid am ash ape asub] using inst_ind'.
   - reflexivity.
   - cbn. unfold notify_ef. destruct (reads e j); reflexivity.
   - rewrite notify_elem, !view_of_elem. f_equal.
     + rewrite map_map. apply map_ext. intros [k e f x]. unfold notify_ef. destruct (reads e j); reflexivity.
     + induction IH as [|k ks Hk _ IHks]; [reflexivity|]. cbn [notify_list views_of]. now rewrite Hk, IHks.
   - cbn. unfold notify_ef. destruct (reads c j); reflexivity.
+  - cbn. unfold notify_ef. destruct (reads aes j || asub && reads aea j); reflexivity.
 Qed.
 
 Lemma notify_ef_ok (P Q : nat -> Prop) hit f (c c' : Prop) :
@@ -350,7 +373,7 @@ Lemma notify_inv j x s (P Q : nat -> Prop) i :
   (forall y, P y -> Q y) -> (forall y, In y (hits j i) -> Q y) ->
   inv s P i -> inv (set_nth j x s) Q (notify j i).
 Proof.
-  intro HPQ. induction i as [id m n|f e id m v|id m ps ks IH|f memo c a b br ch IH] using inst_ind';
+  intro HPQ. induction i as [id m n|f e id m v|id m ps ks IH|f memo c a b br ch IH|af aes aea aid am ash ape asub] using inst_ind';
     intros Hh Hi.
   - exact I.
   - cbn [notify inv] in *.
@@ -379,6 +402,12 @@ Proof.
       * intros E ->. now rewrite eval_set_nth.
     + now rewrite view_of_notify.
     + apply IH; [|exact C]. intros y Hy. apply Hh, in_or_app. now right.
+  - cbn [notify inv hits] in *.
+    eapply (notify_ef_ok P Q (reads aes j || asub && reads aea j) af _ _ HPQ); [| |exact Hi].
+    + intro E. apply Hh. rewrite E. now left.
+    + intro E. apply orb_false_iff in E as [E1 E2]. destruct ape as [[k a]|].
+      * intros ->. now rewrite eval_set_nth.
+      * intros [-> ->]. cbn [andb] in E2. now rewrite !eval_set_nth.
 Qed.
 
 (** * Polling a task *)
@@ -461,7 +490,7 @@ Qed.
 
 Lemma poll_ok t i : poll_spec t i.
 Proof.
-  induction i as [id m n|f e id m x|id m ps ks IH|f memo c a b br ch IH] using inst_ind'; intros v Hi.
+  induction i as [id m n|f e id m x|id m ps ks IH|f memo c a b br ch IH|af aes aea aid am ash ape asub] using inst_ind'; intros v Hi.
   - cbn. repeat split; auto.
   - cbn [poll inv] in *. destruct (due t f) eqn:Hd.
     + split; [|split; [reflexivity|]].
@@ -517,6 +546,11 @@ Proof.
     + specialize (IH v Hc). destruct (poll t ch v) as [[ch' rep] v1]. destruct IH as (A & B & C).
       split; [|split; [reflexivity|exact C]]. cbn [inv].
       split; [eapply not_due_ok; eauto|]. split; [now rewrite B|exact A].
+  - cbn [poll inv] in *. destruct (due t af) eqn:Hd.
+    + cbn [new_future]. split; [|split; [reflexivity|]].
+      * cbn [inv clear note]. split; [intros _; reflexivity|discriminate].
+      * split; [reflexivity|]. intros y Hy. exact Hy.
+    + split; [|split; [reflexivity|apply le_env_refl]]. cbn [inv]. eapply not_due_ok; eauto. apply le_env_refl.
 Qed.
 
 (** * Convergence *)
@@ -536,20 +570,75 @@ Proof. reflexivity. Qed.
 Lemma ef_ok_none f c : ef_ok none f c -> c.
 Proof. intros [A B]. destruct (note f) eqn:E; [destruct (B eq_refl)|auto]. Qed.
 
-Lemma settled_shape s i : inv s none i -> shape_of i = fresh s (view_of i).
+Fixpoint settled_list (l : list inst) : bool :=
+  match l with [] => true | k :: l => settled k && settled_list l end.
+Lemma settled_elem id m ps ks : settled (IElem id m ps ks) = settled_list ks.
+Proof. reflexivity. Qed.
+
+Lemma settled_shape s i : inv s none i -> settled i = true -> shape_of i = fresh s (view_of i).
 Proof.
-  induction i as [id m n|f e id m x|id m ps ks IH|f memo c a b br ch IH] using inst_ind'; intro Hi.
+  induction i as [id m n|f e id m x|id m ps ks IH|f memo c a b br ch IH|af aes aea aid am ash ape asub]
+    using inst_ind'; intros Hi Hs.
   - reflexivity.
   - cbn [inv] in Hi. apply ef_ok_none in Hi. cbn. now rewrite Hi.
-  - rewrite inv_elem in Hi. destruct Hi as [Hp Hk].
+  - rewrite inv_elem in Hi. destruct Hi as [Hp Hk]. rewrite settled_elem in Hs.
     rewrite shape_of_elem, view_of_elem, fresh_elem. f_equal.
     + rewrite map_map. clear Hk IH. induction Hp as [|[k e f x] ps Hp1 _ IHp]; [reflexivity|].
       cbn [map]. cbn [pinv] in Hp1. apply ef_ok_none in Hp1. now rewrite Hp1, IHp.
     + clear Hp. induction IH as [|k ks Hk1 _ IHks]; [reflexivity|].
-      cbn [inv_list] in Hk. destruct Hk as [A B]. cbn [shapes_of views_of fresh_list].
-      now rewrite (Hk1 A), (IHks B).
-  - cbn [inv] in Hi. destruct Hi as (Hf & Hv & Hc). apply ef_ok_none in Hf.
-    cbn [shape_of view_of fresh]. rewrite (IH Hc), Hv, <- Hf. destruct br; reflexivity.
+      cbn [inv_list] in Hk. destruct Hk as [A B]. cbn [settled_list] in Hs.
+      apply andb_true_iff in Hs as [S1 S2]. cbn [shapes_of views_of fresh_list].
+      now rewrite (Hk1 A S1), (IHks B S2).
+  - cbn [inv] in Hi. destruct Hi as (Hf & Hv & Hc). apply ef_ok_none in Hf. cbn [settled] in Hs.
+    cbn [shape_of view_of fresh]. rewrite (IH Hc Hs), Hv, <- Hf. destruct br; reflexivity.
+  - cbn [inv] in Hi. apply ef_ok_none in Hi. cbn [settled] in Hs. destruct ape as [[k a]|]; [discriminate|].
+    destruct Hi as [-> _]. reflexivity.
+Qed.
+
+(** ** a future completes *)
+Lemma complete_elem k id m ps ks v :
+  complete k (IElem id m ps ks) v =
+  let '(ks', mk, v1) := complete_list k ks v in (IElem id (m + mk)%nat ps ks', false, v1).
+Proof.
+  cbn [complete].
+  match goal with
+  | |- (let '(_, _) := ?G ks v in _) = _ => assert (E : forall l w, G l w = complete_list k l w)
+  end.
+  { induction l as [|x l IHl]; intro w; [reflexivity|].
+    cbn [complete_list]. cbn -[complete]. destruct (complete k x w) as [[x' rep] w1]. now rewrite IHl. }
+  now rewrite E.
+Qed.
+
+Definition complete_spec (k : nat) (i : inst) : Prop :=
+  forall (P : nat -> Prop) v, inv (sigs v) P i ->
+  let '(i', rep, v') := complete k i v in
+  inv (sigs v) P i' /\ view_of i' = view_of i /\ v' = v.
+
+Lemma complete_ok k i : complete_spec k i.
+Proof.
+  induction i as [id m n|f e id m x|id m ps ks IH|f memo c a b br ch IH|af aes aea aid am ash ape asub]
+    using inst_ind'; intros P v Hi.
+  - cbn. auto.
+  - cbn. auto.
+  - rewrite complete_elem. rewrite inv_elem in Hi. destruct Hi as [Hp Hk].
+    assert (H : let '(ks', mk, v') := complete_list k ks v in
+                inv_list (sigs v) P ks' /\ views_of ks' = views_of ks /\ v' = v).
+    { clear Hp. induction IH as [|x ks Hx _ IHks]; [cbn; auto|].
+      cbn [inv_list] in Hk. destruct Hk as [A B]. cbn [complete_list].
+      specialize (Hx P v A). destruct (complete k x v) as [[x' rep] v1]. destruct Hx as (X1 & X2 & ->).
+      specialize (IHks B). destruct (complete_list k ks v) as [[l' mk] v2]. destruct IHks as (Y1 & Y2 & ->).
+      cbn [inv_list views_of]. rewrite X2, Y2. auto. }
+    destruct (complete_list k ks v) as [[ks' mk] v1]. destruct H as (A & B & ->).
+    split; [rewrite inv_elem; auto|]. split; [|reflexivity]. rewrite !view_of_elem. now rewrite B.
+  - cbn [complete inv] in *. destruct Hi as (Hf & Hv & Hc).
+    specialize (IH P v Hc). destruct (complete k ch v) as [[ch' rep] v1]. destruct IH as (A & B & ->).
+    split; [|split; reflexivity]. cbn [inv]. rewrite B. auto.
+  - cbn [complete]. destruct ape as [[k' a]|]; [|auto].
+    destruct (Nat.eqb k k'); [|auto].
+    cbn [inv] in Hi. destruct Hi as [Hcur Hq].
+    assert (Hnew : ef_ok P af (Some (a + eval (sigs v) aea)%N = Some (eval (sigs v) aes + eval (sigs v) aea)%N /\ true = true)).
+    { split; [|exact Hq]. intro Hn. rewrite (Hcur Hn). auto. }
+    destruct ash as [y|]; (split; [exact Hnew|split; reflexivity]).
 Qed.
 
 Definition sys_inv (r : rview) (st : sys) : Prop :=
@@ -557,16 +646,16 @@ Definition sys_inv (r : rview) (st : sys) : Prop :=
 
 Lemma mount_inv r s0 : sys_inv r (mount r s0).
 Proof.
-  unfold mount. set (v0 := {| sigs := s0; neid := 0; nid := 0; ready := []; log := [] |}).
+  unfold mount. set (v0 := {| sigs := s0; neid := 0; nid := 0; ready := []; log := []; nfut := O; opened := [] |}).
   pose proof (build_ok r v0) as H. destruct (build r v0) as [i v]. destruct H as (A & B & [C _]).
   split; cbn [root ev]; [|exact B]. rewrite C. eapply inv_mono; [|exact A]. intros y [].
 Qed.
 
 Lemma step_inv r st e : sys_inv r st -> sys_inv r (step st e).
 Proof.
-  intros [Hi Hv]. destruct e as [j x|k]; cbn [step].
+  intros [Hi Hv]. destruct e as [j x|k|l j]; cbn [step].
   - set (v1 := {| sigs := set_nth j x (sigs (ev st)); neid := neid (ev st); nid := nid (ev st);
-                  ready := ready (ev st); log := log (ev st) |}).
+                  ready := ready (ev st); log := log (ev st); nfut := nfut (ev st); opened := opened (ev st) |}).
     pose proof (le_fold_wake (hits j (root st)) v1) as [L1 L2].
     split; cbn [root ev].
     + rewrite L1. cbn [v1 sigs]. eapply notify_inv; [| |exact Hi].
@@ -585,6 +674,11 @@ Proof.
     destruct H as (A & B & [C _]). split; cbn [root ev].
     + now rewrite C.
     + now rewrite B.
+  - destruct (filter (fun x => Nat.eqb (fst x) l) (opened (ev st))) as [|o0 os] eqn:Eo; [split; assumption|].
+    set (k := snd (nth (j mod length (o0 :: os)) (o0 :: os) (0%nat, 0%nat))).
+    pose proof (complete_ok k (root st) (inq (ev st)) (close_future k (ev st)) Hi) as H.
+    destruct (complete k (root st) (close_future k (ev st))) as [[i' rep] v']. destruct H as (A & B & ->).
+    split; cbn [root ev]; [exact A|now rewrite B].
 Qed.
 
 Lemma run_inv r es : forall st, sys_inv r st -> sys_inv r (run_events st es).
@@ -592,14 +686,16 @@ Proof.
   induction es as [|e es IH]; intros st H; [exact H|]. cbn [run_events fold_left]. apply IH, step_inv, H.
 Qed.
 
-(** for every program, every history of signal writes and every polling order: whenever no task is
-    ready, the DOM is the from-scratch render of the current signal values *)
+(** for every program, every history of signal writes, future completions (in any order, also an
+    older future after a newer one) and every polling order: whenever no task is ready and no async
+    leaf is waiting for the future of its last run, the DOM is the from-scratch render of the current
+    signal values *)
 Theorem reactive_view_converges r s0 es :
   let st := run_events (mount r s0) es in
-  idle st = true -> shape_of (root st) = fresh (sigs (ev st)) r.
+  idle st = true -> settled (root st) = true -> shape_of (root st) = fresh (sigs (ev st)) r.
 Proof.
-  intros st Hidle. destruct (run_inv r es _ (mount_inv r s0)) as [Hi Hv]. fold st in Hi, Hv.
-  rewrite <- Hv. apply settled_shape. eapply inv_mono; [|exact Hi].
+  intros st Hidle Hset. destruct (run_inv r es _ (mount_inv r s0)) as [Hi Hv]. fold st in Hi, Hv.
+  rewrite <- Hv. apply settled_shape; [|exact Hset]. eapply inv_mono; [|exact Hi].
   intros y Hy. unfold inq, idle in *. destruct (ready (ev st)); [destruct Hy|discriminate].
 Qed.
 
@@ -612,6 +708,7 @@ Fixpoint due_in (t : nat) (i : inst) : bool :=
       existsb (fun '(PI _ _ f _) => due t f) ps
       || (fix go (l : list inst) : bool := match l with [] => false | k :: l => due_in t k || go l end) ks
   | IIf f _ _ _ _ _ ch => due t f || due_in t ch
+  | IAsync f _ _ _ _ _ _ _ => due t f
   end.
 Fixpoint due_in_list (t : nat) (l : list inst) : bool :=
   match l with [] => false | k :: l => due_in t k || due_in_list t l end.
@@ -631,7 +728,7 @@ Qed.
 
 Lemma poll_idle t i : forall v, due_in t i = false -> poll t i v = (i, false, v).
 Proof.
-  induction i as [id m n|f e id m x|id m ps ks IH|f memo c a b br ch IH] using inst_ind'; intros v H.
+  induction i as [id m n|f e id m x|id m ps ks IH|f memo c a b br ch IH|af aes aea aid am ash ape asub] using inst_ind'; intros v H.
   - reflexivity.
   - cbn [due_in] in H. cbn [poll]. now rewrite H.
   - rewrite due_in_elem in H. apply orb_false_iff in H as [Hp Hk].
@@ -642,6 +739,7 @@ Proof.
       cbn [poll_list]. rewrite (Hk1 v A), (IHks B). reflexivity. }
     rewrite E. now rewrite !Nat.add_0_r.
   - cbn [due_in] in H. apply orb_false_iff in H as [Hf Hc]. cbn [poll]. rewrite Hf, (IH v Hc). reflexivity.
+  - cbn [due_in] in H. cbn [poll]. now rewrite H.
 Qed.
 
 Fixpoint eids_list (l : list inst) : list nat :=
@@ -651,7 +749,7 @@ Proof. reflexivity. Qed.
 
 Lemma due_in_eids t i : due_in t i = true -> In t (eids i).
 Proof.
-  induction i as [id m n|f e id m x|id m ps ks IH|f memo c a b br ch IH] using inst_ind'; intro H.
+  induction i as [id m n|f e id m x|id m ps ks IH|f memo c a b br ch IH|af aes aea aid am ash ape asub] using inst_ind'; intro H.
   - discriminate.
   - cbn [due_in eids] in *. unfold due in H. apply andb_true_iff in H as [H _].
     apply Nat.eqb_eq in H. now left.
@@ -664,6 +762,8 @@ Proof.
   - cbn [due_in eids] in *. apply orb_true_iff in H as [H|H].
     + unfold due in H. apply andb_true_iff in H as [H _]. apply Nat.eqb_eq in H. now left.
     + right. auto.
+  - cbn [due_in eids] in *. unfold due in H. apply andb_true_iff in H as [H _].
+    apply Nat.eqb_eq in H. now left.
 Qed.
 
 (** the task picked by [EPoll k] *)
@@ -690,12 +790,13 @@ Proof. reflexivity. Qed.
 
 Lemma nodes_notify j i : nodes (notify j i) = nodes i.
 Proof.
-  induction i as [id m n|f e id m x|id m ps ks IH|f memo c a b br ch IH] using inst_ind'.
+  induction i as [id m n|f e id m x|id m ps ks IH|f memo c a b br ch IH|af aes aea aid am ash ape asub] using inst_ind'.
   - reflexivity.
   - reflexivity.
   - rewrite notify_elem, !nodes_elem. f_equal.
     induction IH as [|k ks Hk _ IHks]; [reflexivity|]. cbn [notify_list nodes_list]. now rewrite Hk, IHks.
   - cbn [notify nodes]. exact IH.
+  - reflexivity.
 Qed.
 
 (** a signal write by itself touches no DOM node; a poll that finds no notified effect with the
@@ -705,18 +806,20 @@ Theorem untouched_parts_unmutated_partial st e :
   match e with
   | EWrite _ _ => True
   | EPoll k => due_in (picked st k) (root st) = false
+  | EComplete _ _ => False    (* the completion of a future is an input change of its async leaf *)
   end ->
   nodes (root (step st e)) = nodes (root st) /\ shape_of (root (step st e)) = shape_of (root st).
 Proof.
-  destruct e as [j x|k]; intro H; cbn [step].
+  destruct e as [j x|k|l j]; intro H; cbn [step]; [| |destruct H].
   - cbn [root]. split; [apply nodes_notify|].
-    induction (root st) as [id m n|f e id m v|id m ps ks IH|f memo c a b br ch IH] using inst_ind'.
+    induction (root st) as [id m n|f e id m v|id m ps ks IH|f memo c a b br ch IH|af aes aea aid am ash ape asub] using inst_ind'.
     + reflexivity.
     + reflexivity.
     + rewrite notify_elem, !shape_of_elem. f_equal.
       * rewrite map_map. apply map_ext. intros [k e f v]. reflexivity.
       * induction IH as [|k ks Hk _ IHks]; [reflexivity|]. cbn [notify_list shapes_of]. now rewrite Hk, IHks.
     + cbn [notify shape_of]. exact IH.
+    + reflexivity.
   - unfold picked in H. destruct (ready (ev st)) as [|r0 rs] eqn:Er; [auto|].
     rewrite poll_idle by exact H. auto.
 Qed.
@@ -731,3 +834,13 @@ Example ex_prog_converges :
               [EPoll 0; EPoll 0; EPoll 0; EPoll 0; EWrite 0 0%N; EWrite 1 2%N; EPoll 1; EPoll 0; EPoll 0; EPoll 0; EPoll 0] in
   idle st = true /\ shape_of (root st) = SElem [(PToggle, 0%N)] [SText 7; SText 2].
 Proof. vm_compute. split; reflexivity. Qed.
+
+(** an async leaf whose signal changes while its first future is pending; the OLDER future completes
+    AFTER the newer one: it was aborted by the re-run's cleanup and must not overwrite the newer value *)
+Definition ex_async : rview := RElem [] [RAsync 1 (ESig 0) (ESig 1); RText 2 (ESig 0)].
+Example ex_async_converges :
+  let st := run_events (mount ex_async [3%N; 10%N])
+              [EPoll 0; EPoll 0; EWrite 0 4%N; EPoll 0; EPoll 0; EComplete 1 1; EComplete 1 0] in
+  idle st = true /\ settled (root st) = true /\
+  shape_of (root st) = SElem [] [SText 14; SText 4].
+Proof. vm_compute. repeat split; reflexivity. Qed.
